@@ -13,9 +13,12 @@
 //!   table on arbitrary `f64`/`f32` values, results printed as bit patterns; the clauses of the property
 //!   (bit-for-bit equalities, rounding bounds, orientation sign against exact rational evaluation, …)
 //!   are evaluated by `tools/props/c19.py` with exact rational arithmetic.
+//! * `geo flop <f64|f32> <add|sub|mul|div> <hex a> <hex b>` — one hardware operation, exact value of the
+//!   result; tie of the idealised rounding `rnd 53` / `rnd 24` (Lean: `Model/Rounding.lean`) to the machine.
 //! * `geof <ty> skew2|skew3 <start dart> <hex coordinates…>` — builds a one-face map (darts `1..n`
 //!   1-linked in a cycle, vertex of dart `i` = i-th point) and calls the real skewness routine with
-//!   `fid = start`.
+//!   `fid = start`.  `skew3g` builds the same face SHARED by two volumes: a second β1 cycle on darts
+//!   `n+1..2n`, 3-linked to the first (`force_link::<3>(1, n+1)`); `start` may be a dart of either side.
 
 use honeycomb_core::cmap::{CMap2, CMap3, CMapBuilder, DartIdType};
 use honeycomb_core::geometry::{CoordsError, CoordsFloat, Vector2, Vector3, Vertex2, Vertex3};
@@ -322,20 +325,35 @@ fn describe_dir(op: &str, a: &[f64], r: &[f64]) -> String {
     }
 }
 
-fn skew<T: Fl>(dim3: bool, start: DartIdType, c: &[T]) -> Option<String> {
+fn skew<T: Fl>(dim3: bool, glued: bool, start: DartIdType, c: &[T]) -> Option<String> {
     let k = if dim3 { 3 } else { 2 };
     if c.is_empty() || c.len() % k != 0 {
         return None;
     }
     let n = c.len() / k;
-    if start == 0 || start as usize > n {
+    let n_darts = if glued { 2 * n } else { n };
+    if start == 0 || start as usize > n_darts {
         return None;
     }
     let r = if dim3 {
-        let map: CMap3<T> = CMapBuilder::<3, T>::from_n_darts(n).build().ok()?;
+        let map: CMap3<T> = CMapBuilder::<3, T>::from_n_darts(n_darts).build().ok()?;
         for i in 1..=n {
             map.force_link::<1>(i as DartIdType, (i % n + 1) as DartIdType).ok()?;
             map.force_write_vertex(i as DartIdType, Vertex3(c[3 * (i - 1)], c[3 * (i - 1) + 1], c[3 * (i - 1) + 2]));
+        }
+        if glued {
+            // the same face seen from a second volume: darts n+1..2n, a β1 cycle of the same length, 3-linked
+            // to the first one (β3 pairs β1^t(1) with β0^t(n+1)); no coordinates: every vertex id stays the
+            // smaller, first-side dart
+            for i in 1..=n {
+                map.force_link::<1>((n + i) as DartIdType, (n + i % n + 1) as DartIdType).ok()?;
+            }
+            map.force_link::<3>(1, (n + 1) as DartIdType).ok()?;
+            for i in 1..=n {
+                if map.vertex_id(i as DartIdType) != i as DartIdType {
+                    return Some("err glued-face-vertex-ids".into());
+                }
+            }
         }
         compute_face_skewness_3d(&map, start)
     } else {
@@ -350,14 +368,14 @@ fn skew<T: Fl>(dim3: bool, start: DartIdType, c: &[T]) -> Option<String> {
 }
 
 fn geof<T: Fl>(op: &str, args: &[&str]) -> String {
-    if op == "skew2" || op == "skew3" {
+    if op == "skew2" || op == "skew3" || op == "skew3g" {
         let Some(start) = args.first().and_then(|s| s.parse::<DartIdType>().ok()) else {
             return "bad-op".into();
         };
         let Some(c) = args[1..].iter().map(|s| T::from_hex(s)).collect::<Option<Vec<T>>>() else {
             return "bad-op".into();
         };
-        return skew::<T>(op == "skew3", start, &c).unwrap_or_else(|| "bad-op".into());
+        return skew::<T>(op != "skew2", op == "skew3g", start, &c).unwrap_or_else(|| "bad-op".into());
     }
     let Some(a) = args.iter().map(|s| T::from_hex(s)).collect::<Option<Vec<T>>>() else {
         return "bad-op".into();
@@ -376,12 +394,111 @@ fn geof<T: Fl>(op: &str, args: &[&str]) -> String {
     }
 }
 
+/// decimal text of `m * 2^k` (arbitrary size; base 10^9 limbs)
+fn big_mul_pow2(m: u64, k: u32) -> String {
+    const B: u64 = 1_000_000_000;
+    let mut d: Vec<u32> = Vec::new();
+    let mut mm = m;
+    while mm > 0 {
+        d.push((mm % B) as u32);
+        mm /= B;
+    }
+    if d.is_empty() {
+        d.push(0);
+    }
+    let mut k = k;
+    while k > 0 {
+        let s = k.min(29);
+        let mut carry: u64 = 0;
+        for x in d.iter_mut() {
+            let v = (u64::from(*x) << s) + carry;
+            *x = (v % B) as u32;
+            carry = v / B;
+        }
+        while carry > 0 {
+            d.push((carry % B) as u32);
+            carry /= B;
+        }
+        k -= s;
+    }
+    let mut out = format!("{}", d[d.len() - 1]);
+    for x in d.iter().rev().skip(1) {
+        out.push_str(&format!("{x:09}"));
+    }
+    out
+}
+
+/// exact rational text of ANY finite f64 (`num` or `num/den`, den a power of two), `nan`, `inf`, `-inf`
+pub fn exact(x: f64) -> String {
+    if x.is_nan() {
+        return "nan".into();
+    }
+    if x.is_infinite() {
+        return if x > 0.0 { "inf".into() } else { "-inf".into() };
+    }
+    if x == 0.0 {
+        return "0".into();
+    }
+    let bits = x.to_bits();
+    let neg = (bits >> 63) != 0;
+    let e = ((bits >> 52) & 0x7ff) as i64;
+    let frac = bits & ((1u64 << 52) - 1);
+    let (mut m, mut ex) = if e == 0 { (frac, -1074i64) } else { (frac | (1u64 << 52), e - 1075) };
+    while m % 2 == 0 {
+        m /= 2;
+        ex += 1;
+    }
+    let sign = if neg { "-" } else { "" };
+    if ex >= 0 {
+        format!("{sign}{}", big_mul_pow2(m, ex as u32))
+    } else {
+        format!("{sign}{m}/{}", big_mul_pow2(1, (-ex) as u32))
+    }
+}
+
+/// `geo flop <f64|f32> <add|sub|mul|div> <hex a> <hex b>`: ONE hardware operation on two floats given by
+/// their bit patterns; reply = exact rational value of the result (compared with `rnd 53` / `rnd 24` of
+/// the Lean model, and with the same definition in python).
+fn flop(ty: &str, op: &str, a: &str, b: &str) -> String {
+    fn run<T: Fl>(op: &str, a: &str, b: &str) -> Option<T> {
+        let (x, y) = (T::from_hex(a)?, T::from_hex(b)?);
+        if !x.is_finite() || !y.is_finite() {
+            return None;
+        }
+        let (x, y) = (std::hint::black_box(x), std::hint::black_box(y));
+        Some(match op {
+            "add" => x + y,
+            "sub" => x - y,
+            "mul" => x * y,
+            "div" => {
+                if y.is_zero() {
+                    return None;
+                }
+                x / y
+            }
+            _ => return None,
+        })
+    }
+    let r: Option<f64> = match ty {
+        "f64" => run::<f64>(op, a, b),
+        "f32" => run::<f32>(op, a, b).map(f64::from),
+        _ => None,
+    };
+    match r {
+        Some(v) => format!("ok {}", exact(v)),
+        None => "bad-op".into(),
+    }
+}
+
 /// dispatch; `None` when the command is not ours
 pub fn step(toks: &[&str]) -> Option<String> {
     match toks[0] {
         "geo" => {
             if toks.len() < 2 {
                 return Some("bad-op".into());
+            }
+            if toks[1] == "flop" {
+                return Some(if toks.len() == 6 { flop(toks[2], toks[3], toks[4], toks[5]) } else { "bad-op".into() });
             }
             let op = toks[1];
             let Some(a) = toks[2..].iter().map(|s| parse_rat(s)).collect::<Option<Vec<f64>>>() else {
